@@ -1565,7 +1565,7 @@ pub mod avx2 {
         #[inline(always)]
         fn not(self) -> Self::Output {
             unsafe {
-                let f = _mm256_set1_epi8(-0x7f);
+                let f = _mm256_set1_epi8(-1);
                 Self::new(f) ^ self
             }
         }
